@@ -320,15 +320,21 @@ fn apply(mu: &Mutn, r: &mut Req, keys: &mut Vec<(String, String)>) -> bool {
             }
         }
         Mutn::SigDigit(i) => {
-            let idx = p.iter().position(|x| x.starts_with("X-Amz-Signature=")).unwrap();
+            let Some(idx) = p.iter().position(|x| x.starts_with("X-Amz-Signature=")) else { return false };
             let mut s = p[idx]["X-Amz-Signature=".len()..].as_bytes().to_vec();
+            if *i >= s.len() {
+                return false;
+            }
             s[*i] = if s[*i] == b'0' { b'1' } else { b'0' };
             p[idx] = format!("X-Amz-Signature={}", String::from_utf8(s).unwrap());
             set_q(r, &p);
         }
         Mutn::SigLength(keep) => {
-            let idx = p.iter().position(|x| x.starts_with("X-Amz-Signature=")).unwrap();
+            let Some(idx) = p.iter().position(|x| x.starts_with("X-Amz-Signature=")) else { return false };
             let sg = p[idx]["X-Amz-Signature=".len()..].to_owned();
+            if sg.len() != 64 {
+                return false;
+            }
             let t = if *keep <= 64 { sg[..*keep].to_owned() } else { format!("{sg}0") };
             p[idx] = format!("X-Amz-Signature={t}");
             set_q(r, &p);
@@ -341,9 +347,12 @@ fn apply(mu: &Mutn, r: &mut Req, keys: &mut Vec<(String, String)>) -> bool {
             }
         }
         Mutn::CredField(fi) => {
-            let idx = p.iter().position(|x| x.starts_with("X-Amz-Credential=")).unwrap();
-            let v = pct_decode(&p[idx]["X-Amz-Credential=".len()..]).unwrap();
+            let Some(idx) = p.iter().position(|x| x.starts_with("X-Amz-Credential=")) else { return false };
+            let Some(v) = pct_decode(&p[idx]["X-Amz-Credential=".len()..]) else { return false };
             let mut f: Vec<String> = v.split('/').map(str::to_owned).collect();
+            if f.len() != 5 {
+                return false;
+            }
             f[*fi] = match fi {
                 0 => AK2.to_owned(),
                 1 => "20240228".to_owned(),
@@ -427,6 +436,7 @@ fn part_instants(acc: &mut Acc, tier: Tier) -> usize {
 
 pub fn run(ctx: &Ctx) -> (Acc, Report) {
     let mut acc = ctx.acc();
+    let tier = ctx.tier;
     let n_instants = if ctx.replay.as_deref().is_none_or(|r| r.starts_with("instant/")) { part_instants(&mut acc, ctx.tier) } else { 0 };
     // histories first, single-threaded and in a fixed order (see authhist.rs)
     let (hist_n, hist_steps) = {
@@ -547,11 +557,56 @@ pub fn run(ctx: &Ctx) -> (Acc, Report) {
                 a.fail(&format!("C06/{kind}/{}", mu.kind(&good)), bi * 1000 + mi as u64, id(), msg, json!({"request": req.describe(), "reference": format!("{reference:?}")}));
             }
         }
+        // (2b) thorough: every pair of mutations (bound 2), judged the same way
+        if tier == Tier::Thorough {
+            let ms = mutations(&good, base);
+            for (i, m1) in ms.iter().enumerate().skip(1) {
+                // the 64 signature digits stand for each other in pairs: first, middle and last only
+                if matches!(m1, Mutn::SigDigit(d) if ![0usize, 31, 63].contains(d)) {
+                    continue;
+                }
+                for (j, m2) in ms.iter().enumerate().skip(i + 1) {
+                    if matches!(m2, Mutn::SigDigit(d) if ![0usize, 31, 63].contains(d)) {
+                        continue;
+                    }
+                    let id = || format!("b{bi}/mut2/{}+{}/{:?}+{:?}", m1.kind(&good), m2.kind(&good), m1, m2);
+                    if !a.selected(&id) {
+                        continue;
+                    }
+                    let mut req = good.clone();
+                    let mut k = keys.clone();
+                    if !apply(m1, &mut req, &mut k) {
+                        continue;
+                    }
+                    // the second mutation addresses parameters by index: only where the first left the parameter list in place
+                    if qparts(&req).len() != qparts(&good).len() {
+                        continue;
+                    }
+                    if !apply(m2, &mut req, &mut k) {
+                        continue;
+                    }
+                    if !req.target.contains("X-Amz-Signature=") {
+                        continue;
+                    }
+                    a.eval();
+                    set_clock_ms(now_ms);
+                    let k2 = k.clone();
+                    let sof = move |ak: &str| k2.iter().find(|x| x.0 == ak).map(|x| x.1.clone());
+                    let reference = verify_v4_presigned(&req, now_ms, &sof);
+                    let obs = observe(&SvcCfg { keys: Some(k), access: AccessMode::Allow, ..Default::default() }, &req, body_one_frame(b""));
+                    a.nontrivial(fnv(id().as_bytes()));
+                    a.outcome(&format!("mutation pair ref={} impl={}", if reference.accepted() { "accept" } else { "reject" }, if obs.accepted_as.is_some() { "accept".to_owned() } else { format!("reject:{}", obs.verdict) }));
+                    if let Some((kind, msg)) = judge(&reference, &obs, &sof) {
+                        a.fail(&format!("C06/{kind}/{}+{}", m1.kind(&good), m2.kind(&good)), bi * 1_000_000 + (i * 1000 + j) as u64, id(), msg, json!({"request": req.describe(), "reference": format!("{reference:?}")}));
+                    }
+                }
+            }
+        }
         s3s::verif_hooks::set_now(None);
     });
     let rep = Report {
         level: "exploration",
-        rule: format!("{n_bases} presignable requests (GET/PUT x 7 keys (incl. a key that contains an escape-shaped text) x 8 extra-query shapes (incl. valueless parameters, bare and with '=') x signed headers {{host, host+meta, host + a meta header sent on two lines, host + a meta header with inner runs of blanks}} x HTTP/1.1|2) x 14 X-Amz-Expires spellings x server-clock instants at signing time + {{-901,-900,-899,-1,0,1,E-1,E,E+1}} s and +-1 ms around both window edges; plus, inside the window, every single mutation/removal/duplication/case change of every query parameter, each signature digit, each credential field, method, each path byte, signed header value/removal, a further line of a signed header appended / prepended, the lines of a repeated signed header swapped / one dropped, provider secret, and 3 equivalent rewrites (parameter order, header name case, blanks inside a signed value). Oracle: reference verifier at the same instant. All judged cases are non-trivial; distinct by id."),
+        rule: format!("{n_bases} presignable requests (GET/PUT x 7 keys (incl. a key that contains an escape-shaped text) x 8 extra-query shapes (incl. valueless parameters, bare and with '=') x signed headers {{host, host+meta, host + a meta header sent on two lines, host + a meta header with inner runs of blanks}} x HTTP/1.1|2) x 14 X-Amz-Expires spellings x server-clock instants at signing time + {{-901,-900,-899,-1,0,1,E-1,E,E+1}} s and +-1 ms around both window edges; plus, inside the window, every single mutation/removal/duplication/case change of every query parameter, each signature digit, each credential field, method, each path byte, signed header value/removal, a further line of a signed header appended / prepended, the lines of a repeated signed header swapped / one dropped, provider secret, and 3 equivalent rewrites (parameter order, header name case, blanks inside a signed value); thorough: also every pair of these mutations (signature digits 0, 31, 63 standing for the 64 in pairs). Oracle: reference verifier at the same instant. All judged cases are non-trivial; distinct by id."),
         exhaustive: true,
         extra: json!({"histories": hist_n, "history_requests_executed": hist_steps, "history_rule": "all sequences of length 1..3 over 8 requests of this property's scheme(s) (two identities x honest / signed with the other identity's secret x two scopes) plus every pair led by a request of another scheme, on one service instance, single-threaded, fixed order; each verdict = the reference verdict of that request alone", "base_requests": n_bases, "signing_instant_x_expiry_cases": n_instants, "signing_instant_rule": "7 signing instants (end of a leap day, of a year, of a century; midnight; 00:14:59; 2^31-1 s; a plain noon) x 5 expiries x the server clock second by second around t0-900, t0, t0+E and around every midnight in reach (thorough: the whole window for E <= 900)"}),
         assumptions: vec![
